@@ -733,3 +733,82 @@ Theorem wire_intact p c :
 Proof.
   apply decode_stream_encode. apply (run_queues_wf p init). intros c'. constructor.
 Qed.
+
+(* ---------------------------------------------------------------- reading of [subscribed] *)
+
+(* the definition by folding over the prefix says what one expects: c is subscribed to ch after
+   [pre] iff c was never closed and some SUBSCRIBE c ch in [pre] has no UNSUBSCRIBE c ch after it *)
+Lemma snoc_split {A} (pre p1 : list A) o x p2 :
+  pre ++ [o] = p1 ++ x :: p2 ->
+  (p2 = [] /\ pre = p1 /\ o = x) \/ (exists p2', p2 = p2' ++ [o] /\ pre = p1 ++ x :: p2').
+Proof.
+  intros E. destruct p2 as [|y p2] using rev_ind.
+  - left. apply app_inj_tail in E as [E1 E2]. repeat split; assumption.
+  - right. clear IHp2. exists p2.
+    change (p1 ++ x :: p2 ++ [y]) with (p1 ++ (x :: p2) ++ [y]) in E. rewrite app_assoc in E.
+    apply app_inj_tail in E as [E1 E2]. subst. split; reflexivity.
+Qed.
+
+Lemma s_closed_iff pre c :
+  s_closed (spec_after pre) c = true <-> In (Close c) pre \/ In (Disconnect c) pre.
+Proof.
+  induction pre as [|o pre IH] using rev_ind; [cbn; split; [discriminate|tauto]|].
+  rewrite spec_after_snoc, !in_app_iff. cbn [In].
+  destruct o as [c0 ch0|c0 ch0|p0 ch0 m0|c0|c0]; cbn [spec_step s_closed]; try rewrite IH.
+  1-3: split; [intros [H|H]; [left; left; exact H|right; left; exact H]|
+               intros [[H|[H|[]]]|[H|[H|[]]]]; try discriminate; [left|right]; exact H].
+  - destruct (N.eqb_spec c c0) as [->|Hne].
+    + split; [intros _; left; right; left; reflexivity|reflexivity].
+    + rewrite IH. split; [intros [H|H]; [left; left; exact H|right; left; exact H]|].
+      intros [[H|[H|[]]]|[H|[H|[]]]]; try discriminate; [left; exact H| |right; exact H].
+      inversion H. congruence.
+  - destruct (N.eqb_spec c c0) as [->|Hne].
+    + split; [intros _; right; right; left; reflexivity|reflexivity].
+    + rewrite IH. split; [intros [H|H]; [left; left; exact H|right; left; exact H]|].
+      intros [[H|[H|[]]]|[H|[H|[]]]]; try discriminate; [left; exact H|right; exact H|].
+      inversion H. congruence.
+Qed.
+
+Lemma s_sub_iff pre c ch :
+  s_sub (spec_after pre) c ch = true <->
+  exists p1 p2, pre = p1 ++ Subscribe c ch :: p2 /\ ~ In (Unsubscribe c ch) p2.
+Proof.
+  induction pre as [|o pre IH] using rev_ind.
+  - cbn. split; [discriminate|]. intros (p1 & p2 & E & _). destruct p1; discriminate.
+  - rewrite spec_after_snoc.
+    assert (Keep : s_sub (spec_step (spec_after pre) o) c ch = s_sub (spec_after pre) c ch ->
+                   o <> Subscribe c ch -> o <> Unsubscribe c ch ->
+                   (s_sub (spec_step (spec_after pre) o) c ch = true <->
+                    exists p1 p2, pre ++ [o] = p1 ++ Subscribe c ch :: p2 /\ ~ In (Unsubscribe c ch) p2)).
+    { intros -> N1 N2. rewrite IH. split.
+      - intros (p1 & p2 & -> & Hn). exists p1, (p2 ++ [o]). split; [rewrite <- app_assoc; reflexivity|].
+        rewrite in_app_iff. intros [H|[H|[]]]; [contradiction|congruence].
+      - intros (p1 & p2 & E & Hn). apply snoc_split in E as [(_ & _ & E)|(p2' & -> & ->)]; [congruence|].
+        exists p1, p2'. split; [reflexivity|]. intros H. apply Hn. apply in_or_app. left. exact H. }
+    destruct o as [c0 ch0|c0 ch0|p0 ch0 m0|c0|c0]; try (apply Keep; [reflexivity|discriminate|discriminate]).
+    + destruct (N.eq_dec c c0) as [->|Hc]; [destruct (bytes_eq_dec ch ch0) as [->|Hch]|].
+      * cbn [spec_step s_sub]. rewrite N.eqb_refl, bytes_eqb_refl. cbn.
+        split; [|reflexivity]. intros _. exists pre, []. split; [reflexivity|intros []].
+      * apply Keep; [cbn [spec_step s_sub]; rewrite N.eqb_refl; cbn;
+                     destruct (bytes_eqb_spec ch ch0); [contradiction|reflexivity]|congruence|discriminate].
+      * apply Keep; [cbn [spec_step s_sub]; destruct (N.eqb_spec c c0); [contradiction|reflexivity]|congruence|discriminate].
+    + destruct (N.eq_dec c c0) as [->|Hc]; [destruct (bytes_eq_dec ch ch0) as [->|Hch]|].
+      * cbn [spec_step s_sub]. rewrite N.eqb_refl, bytes_eqb_refl. cbn.
+        split; [discriminate|]. intros (p1 & p2 & E & Hn). exfalso.
+        apply snoc_split in E as [(_ & _ & E)|(p2' & -> & _)]; [discriminate|].
+        apply Hn. apply in_or_app. right. left. reflexivity.
+      * apply Keep; [cbn [spec_step s_sub]; rewrite N.eqb_refl; cbn;
+                     destruct (bytes_eqb_spec ch ch0); [contradiction|reflexivity]|discriminate|congruence].
+      * apply Keep; [cbn [spec_step s_sub]; destruct (N.eqb_spec c c0); [contradiction|reflexivity]|discriminate|congruence].
+Qed.
+
+Theorem subscribed_characterization pre c ch :
+  subscribed pre c ch = true <->
+  (exists p1 p2, pre = p1 ++ Subscribe c ch :: p2 /\ ~ In (Unsubscribe c ch) p2) /\
+  ~ In (Close c) pre /\ ~ In (Disconnect c) pre.
+Proof.
+  unfold subscribed. rewrite andb_true_iff, negb_true_iff, s_sub_iff.
+  split; intros [H1 H2]; (split; [exact H1|]).
+  - split; intros H; assert (X : s_closed (spec_after pre) c = true) by (apply s_closed_iff; tauto); congruence.
+  - destruct (s_closed (spec_after pre) c) eqn:E; [|reflexivity]. apply s_closed_iff in E. tauto.
+Qed.
